@@ -85,6 +85,7 @@ pub fn configs(ctx: &Ctx) -> Vec<DistSpec> {
             v.push(env::cont_random(fam, Scalar::F32, &mut r));
         }
         v.extend(env::special_cross(fam, Scalar::F32).into_iter().filter(|s| build_caught(s).is_ok()));
+        v.extend(env::magnitude_cross(fam, Scalar::F32).into_iter().filter(|s| build_caught(s).is_ok()));
     }
     v
 }
